@@ -17,6 +17,25 @@ def V(name, rule, file, old, new, nth=None):
 
 
 VARIANTS = {
+    'C07': [
+        V('propagate: satisfied clause loses its watch', 'C07.R1', 'smt/clause.cpp', "        if (value(lits[0]) == True)\n        {\n            watches(p).push_back(this);\n            return true;\n        }", "        if (value(lits[0]) == True)\n            return true;"),
+        V('propagate: new watch registered under the wrong literal', 'C07.R1', 'smt/clause.cpp', "                watches(!lits[1]).push_back(this);", "                watches(!lits[0]).push_back(this);"),
+        V('propagate: search starts at position 2', 'C07.R1', 'smt/clause.cpp', "        for (size_t i = 1; i < lits.size(); ++i)\n            if (value(lits[i]) != False)", "        for (size_t i = 2; i < lits.size(); ++i)\n            if (value(lits[i]) != False)"),
+        V('sat propagate: unvisited watchers dropped on conflict', 'C07.R1', SAT, "                    for (size_t j = i + 1; j < tmp.size(); ++j)\n                        watches[index(p)].push_back(tmp[j]);\n", ""),
+        V('record: learnt clause not stored', 'C07.R2', SAT, "            assert(e);\n            constrs.push_back(c);", "            assert(e);"),
+        V('record: asserting literal without reason', 'C07.R2', SAT, "[[maybe_unused]] bool e = enqueue(l0, c);", "[[maybe_unused]] bool e = enqueue(l0);"),
+        V('new_clause: only one watch', 'C07.R2', 'smt/clause.cpp', "        c->watches(!l1).push_back(c);\n", ""),
+        V('propagate: theory conflict at root ignored', 'C07.R3', SAT, "                        if (root_level())\n                        {\n                            th->cnfl.clear();\n                            return false;\n                        }\n\n                        // we analyze the theory's conflict, create a no-good from the analysis and backjump..\n                        th->analyze_and_backjump();\n                        goto main_loop;\n                    }\n                if (root_level()) // since", "                        if (root_level())\n                        {\n                            th->cnfl.clear();\n                            return true;\n                        }\n\n                        // we analyze the theory's conflict, create a no-good from the analysis and backjump..\n                        th->analyze_and_backjump();\n                        goto main_loop;\n                    }\n                if (root_level()) // since"),
+        V('next: first decision missing from the no-good', 'C07.R3', SAT, "        for (const auto &l : decisions)\n            no_good.push_back(!l);", "        for (const auto &l : decisions)\n            if (l != decisions.front())\n                no_good.push_back(!l);"),
+        V('check: level not restored on success', 'C07.R3', SAT, "        assert(c_rl + lits.size() == decision_level());\n        while (decision_level() > c_rl)\n            pop();\n        return true;", "        assert(c_rl + lits.size() == decision_level());\n        return true;"),
+        V('new_clause: tautology test dropped', 'C07.R4', SAT, "            if (value(*it) == True || *it == !p)\n                return true; // the clause is already satisfied or represents a tautology..", "            if (value(*it) == True)\n                return true; // the clause is already satisfied or represents a tautology.."),
+        V('new_clause: empty clause accepted', 'C07.R4', SAT, "        case 0: // the clause is unsatisfable..\n            return false;", "        case 0: // the clause is unsatisfable..\n            return true;"),
+        V('get_reason keeps the propagated literal', 'C07.R5', 'smt/clause.cpp', "for (size_t i = is_undefined(p) ? 0 : 1; i < lits.size(); ++i)", "for (size_t i = 0; i < lits.size(); ++i)"),
+        V('simplify drops undefined literals', 'C07.R5', 'smt/clause.cpp', "            case Undefined:\n                lits[j++] = lits[i];\n                break;", "            case Undefined:\n                break;"),
+        V('enqueue: level not recorded', 'C07.R5', SAT, "            level[variable(p)] = decision_level();\n", ""),
+        V('analyze: lower-level literal added un-negated', 'C07.R6', SAT, "out_learnt.push_back(!q); // this literal", "out_learnt.push_back(q); // this literal"),
+        V('analyze: back-jump level not raised', 'C07.R6', SAT, "                        out_btlevel = std::max(out_btlevel, level[variable(q)]);\n", ""),
+    ],
     'C08': [
         V('set_dist: save after the store', 'C08.R2', DL,
           "            layers.back().old_dists.insert({{from, to}, _dists[from][to]});\n        // we update the disterence..\n        _dists[from][to] = dist;",
